@@ -9,7 +9,8 @@ LEVEL = "proof"
 TECHNIQUE = ("Coq theorems: loop invariants of the Newton iteration for every oracle behaviour (returned protocol consistent with its "
              "reduced phases, 1 <= iterations <= maxiter, the stop reason matches the break condition), update-history invariant, and "
              "soundness of the certificate check_im_target (interval evaluation of the returned protocol's phase product; "
-             "|Im<0|U(a)|0> - sum_j c_j T_{2j+parity}(a)| <= tol for every a); the certificate and the invariants are evaluated on "
+             "|Im<0|U(a)|0> - sum_j c_j T_{2j+parity}(a)| <= tol for every a), admissibility of every target of 1-norm <= 0.9 "
+             "(C13_target_admissible: its Laurent form is <= 0.9 on the whole circle); the certificate and the invariants are evaluated on "
              "every return of newton_Solver over generated targets of length 1..80, both parities, and crit / maxiter settings. "
              "Convergence within 30 iterations is decided by outcome agreement only")
 LEVEL_TEXT = ("Props/C13.v: certificate soundness (all reduced phases, targets, all a), loop invariants (all oracles, all maxiter), "
@@ -20,7 +21,7 @@ LEVEL_NOTE = ("Trusted: Coq kernel + vm_compute, extraction, driver.ml, harness,
               "Classical_Prop.classic (certificate theorem); loop theorems axiom-free. Residual: convergence of Newton's iteration in "
               "floating point (numpy.linalg.solve, FFT) is a numerical-analysis statement outside this development.")
 RULE = ("target coefficient vectors of length 1..80 (quick: 1..10, 16, 25, 40, 80), both parities, geometric / flat / random-sign decay, "
-        "1-norm in (0, 0.9]; coefficient arrays of dtype float64 and (same values) float32 / float16; default crit/maxiter plus (crit, maxiter) in {(1e-12, 1..5), (1e-6, 50), (1e-14, 100)}; distinct by JSON; "
+        "1-norm in (0, 0.9], plus tiny targets of 1-norm 1e-8 / 3e-9; coefficient arrays of dtype float64 and (same values) float32 / float16; default crit/maxiter plus (crit, maxiter) in {(1e-12, 1..5), (1e-6, 50), (1e-14, 100)}; distinct by JSON; "
         "non-trivial = at least 2 coefficients")
 TRUSTED = ["Coq 8.16.1 kernel incl. vm_compute", "extraction (ExtrOcamlBasic, ExtrOcamlZBigInt) + driver.ml + zarith, cross-checked in Coq on a slice",
            "harness (impl_runner.py, impl_handlers4.py)", "numpy as executor of the implementation"]
